@@ -30,6 +30,43 @@ CLAIMED = {
          "Values passed are plain atoms, so one clone of a value is one counted clone.",
          "property-based testing: differential oracle with instrumented data type", "DESIGN.md §4 C15"),
 }
+
+CLAIMED.update({
+ "C05": ("The library's first and second partial derivatives of generated expressions (flat/deep/converted/unfolded start forms) compared at interior points with forward-mode nested dual numbers on the generated tree: tolerance over f64, exact over arbitrary-precision rationals for the rational sub-language; operators without derivative rule must yield Err or the true derivative. Exploration.",
+         "Points judged only inside the domain with margin 0.05 and magnitudes below 1e6; tolerance 1e-6/1e-5 over f64.",
+         "property-based testing: dual-number reference oracle (f64 and exact rationals)", "DESIGN.md §4 C05"),
+ "C06": ("Validity predicate 'every call returns; no panic, hang or death of the process' over all strings of <=5/6 tokens of a 14-token alphabet (exhaustive), token soup and mutated expressions up to 1000 tokens, nests up to depth 100 in child processes with the default 8 MiB stack, the saved fuzz corpus; thorough tier adds a libFuzzer campaign. Every entry point and follow-up is called. Exhaustive for short strings, exploration beyond.",
+         "Texts beyond 1000 tokens / nesting 100 are outside the property; differentiation follow-ups only for nesting <= 16 and <= 120 tokens; 30 s without return = hang.",
+         "bounded-exhaustive enumeration + property-based testing + coverage-guided fuzzing (libFuzzer) with a totality oracle", "DESIGN.md §4 C06"),
+ "C09": ("Index histories of length 0-4 on generated differentiable expressions: every library route (sequential, partial_iter, partial_nth, relaxed variants, reversed order) keeps the antiderivative's variable list and equals the derivative of that order from triply nested dual numbers (tolerance over f64, exact over rationals); an out-of-range index at any position must give Err. Exploration.",
+         "partial_nth(i, 0) with i out of range is not judged; points judged in the interior of the domain only.",
+         "property-based testing: metamorphic relations + dual-number reference oracle", "DESIGN.md §4 C09"),
+ "C10": ("Stateful histories: by-name and helper applications on flat and deep expressions over a term algebra (variables and symbolic value vs. reference tree after every step; unknown names must fail) and the simplifying overloaded operators on deep expressions over f64 and exact rationals vs. the unsimplified reference at well-defined assignments. Exploration.",
+         "Simplifying part judged only where the unsimplified reference stays within domain margins; 0^0 may be rejected.",
+         "property-based testing: model-based histories with reference-tree oracle (symbolic, f64, exact rationals)", "DESIGN.md §4 C10"),
+ "C11": ("Stateful histories with substitutions (self-referential, constant, renaming, swapping, empty maps; repeated) on flat and deep expressions over a term algebra, compared after every step with simultaneous tree substitution; numeric version over the default float operators. Exploration.",
+         "Reference = simultaneous substitution on the generated trees.",
+         "property-based testing: model-based histories with reference-tree oracle", "DESIGN.md §4 C11"),
+ "C12": ("Every expression reachable by parse + generated conversions/applications/substitutions over a term algebra is printed, parsed back by both parsers, compared (variables, symbolic value) and put through serde; parsed flat expressions must print their source exactly; derived float expressions are printed and parsed back numerically. Exploration.",
+         "Tables where a binary name followed by a unary name re-tokenises differently are excluded from printing checks (known finding F11); expressions listing variables absent from their text excluded from the float part (known finding F12); exponent/inf/NaN literal forms are outside the quantifier.",
+         "property-based testing: round-trip oracle (print/parse, serde) over model-based histories", "DESIGN.md §4 C12"),
+ "C16": ("Every operator of the value table x every ordered pair of a 41-value catalogue of boundary operands (exhaustive) and random operands, judged by an independent reference interpreter of the documented rules (open cells counted, not judged); typed expression trees over the real table vs. left-to-right precedence semantics. Exhaustive over the catalogue, exploration beyond.",
+         "Unspecified cells listed in DESIGN.md are not judged; Error == Error regardless of message; floats within 2 ulp.",
+         "bounded-exhaustive enumeration + property-based testing against a reference interpreter", "DESIGN.md §4 C16"),
+ "C17": ("Every operator of the value table x every ordered pair of a catalogue of special operands for four instantiations (i32/f64, i64/f32, i8/f32, i16/f64) under catch_unwind; the listed situations must yield an error value; the same cells through literals folded at parse time and through variables. Exhaustive over the catalogue, exploration beyond.",
+         "Harness built with overflow checks and debug assertions; the error value itself is demanded, so silent wrapping is caught too.",
+         "bounded-exhaustive enumeration + property-based testing with totality/error-value oracle", "DESIGN.md §4 C17"),
+ "C18": ("Generated value-typed expressions with nested `a if c else b` terms (integer and float literals mixed; flat and deep forms) differentiated by the library and compared at points off the branch boundaries with a Val-aware forward-mode reference. Exploration.",
+         "Conditions mention a variable; divisors and bases under variable exponents are float-typed by construction (known findings F13, F14 replayed); tolerance 1e-6.",
+         "property-based testing: Val-aware dual-number reference oracle", "DESIGN.md §4 C18"),
+ "C19": ("All 34 operators and 6 constants of FloatOpsFactory<f32|f64> against an independent table name -> Rust primitive: exhaustive over a 40-value catalogue (all ordered pairs), random arguments across bit patterns and magnitudes, and through parsed expressions (infix, call, juxtaposed). Exhaustive over the catalogue, exploration beyond.",
+         "Results bit-identical or within 2 ulp with identical NaN-ness, infinities and sign of zero.",
+         "bounded-exhaustive enumeration + property-based testing against an independent reference table", "DESIGN.md §4 C19"),
+ "C20": ("Send/Sync decided by the compiler (a binary that only compiles if the bounds hold); generated evaluation histories compared structurally with a pristine clone after every step; results independent of what the thread handled before; generated plans run concurrently from a barrier vs. sequentially, also in fresh child processes whose first library call is the racing parse. Type-level part decided for all uses; histories explored; schedules sampled (the harness does not own the scheduler).",
+         "The schedule dimension is a stress sample, not an enumeration (std::sync::Once inside lazy_static cannot be instrumented without editing a dependency).",
+         "compile-time trait assertion + property-based testing (stateful histories) + sampled concurrent-vs-sequential differential", "DESIGN.md §4 C20"),
+})
+
 NOT_YET = "check not built yet (work in progress; it will be claimed once its check is committed)"
 props=[json.loads(l) for l in open('/verif/properties.jsonl')]
 m={
